@@ -58,10 +58,15 @@ theorem chkAll_append (strict : Bool) (g : G) (xs ys : List Out) :
     | none => rfl
     | some g' => simpa using ih g'
 
+/-- the checker's `up` is the model's `isUp` as long as the API process lives (once it is gone no
+    `down` can be written and no `up` ever follows); `isUp` is only ever set with `neighbor-changes`. -/
+@[reducible] def UpRel (s : State) (g : G) : Prop :=
+  (s.dead = false → g.up = s.isUp) ∧ (s.isUp = true → s.cfg.changes = true)
+
 /-- model state and checker state agree; `full`: the connection in use is not dead. -/
 structure Rel (full : Bool) (s : State) (g : G) : Prop where
   fsm : g.fsm = s.fsm
-  up : g.up = s.isUp
+  up : UpRel s g
   ids : ∀ i ∈ g.dead, i < s.nextId
   cid : ∀ k, s.conn = some k → k.id < s.nextId
   live : full = true → ∀ k, s.conn = some k → k.id ∉ g.dead
@@ -90,13 +95,14 @@ theorem Rel.weaken {full : Bool} {s : State} {g : G} (h : Rel full s g) : Rel fa
 
 /-- a change of the model state which touches none of `fsm`, `isUp`, `nextId`, `conn`. -/
 theorem Rel.frame {full : Bool} {s t : State} {g : G} (h : Rel full s g) (h1 : t.fsm = s.fsm) (h2 : t.isUp = s.isUp)
-    (h3 : t.nextId = s.nextId) (h4 : t.conn.map Conn.id = s.conn.map Conn.id) : Rel full t g := by
+    (h3 : t.nextId = s.nextId) (h4 : t.conn.map Conn.id = s.conn.map Conn.id)
+    (h5 : t.dead = s.dead := by rfl) (h6 : t.cfg = s.cfg := by rfl) : Rel full t g := by
   have key : ∀ k, t.conn = some k → ∃ k', s.conn = some k' ∧ k.id = k'.id := by
     intro k hk
     cases hs : s.conn with
     | none => simp [hs, hk] at h4
     | some k' => exact ⟨k', rfl, by simpa [hs, hk] using h4⟩
-  refine ⟨by rw [h.fsm, h1], by rw [h.up, h2], by rw [h3]; exact h.ids, ?_, ?_, ?_⟩
+  refine ⟨by rw [h.fsm, h1], ⟨by rw [h5, h2]; exact h.up.1, by rw [h2, h6]; exact h.up.2⟩, by rw [h3]; exact h.ids, ?_, ?_, ?_⟩
   · intro k hk
     obtain ⟨k', hs, e⟩ := key k hk
     rw [e, h3]; exact h.cid k' hs
@@ -128,7 +134,19 @@ theorem apiDown_acc {strict full : Bool} {s : State} {g : G} (h : Rel full s g) 
   unfold apiDown
   split
   · exact ⟨g, rfl, h, rfl, rfl, rfl⟩
-  · exact ⟨{ g with up := false }, by simp [chkAll, chk], ⟨h.fsm, rfl, h.ids, h.cid, h.live, h.accounted⟩, rfl, rfl, rfl⟩
+  · cases hch : s.cfg.changes <;> cases hdd : s.dead
+    · -- no neighbor-changes: nothing is written, and `isUp` was never set
+      refine ⟨g, by simp [chkAll, hch], ⟨h.fsm, ⟨?_, by simp⟩, h.ids, h.cid, h.live, h.accounted⟩, rfl, rfl, rfl⟩
+      intro _
+      have h1 := h.up.1 hdd
+      have h2 := h.up.2
+      cases hu : s.isUp
+      · rw [h1, hu]
+      · rw [hch] at h2; exact absurd (h2 hu) (by simp)
+    · exact ⟨g, by simp [chkAll, hch], ⟨h.fsm, ⟨by simp [hdd], by simp⟩, h.ids, h.cid, h.live, h.accounted⟩, rfl, rfl, rfl⟩
+    · exact ⟨{ g with up := false }, by simp [chkAll, chk, hch, hdd],
+        ⟨h.fsm, ⟨fun _ => rfl, by simp⟩, h.ids, h.cid, h.live, h.accounted⟩, rfl, rfl, rfl⟩
+    · exact ⟨g, by simp [chkAll, hch, hdd], ⟨h.fsm, ⟨by simp [hdd], by simp⟩, h.ids, h.cid, h.live, h.accounted⟩, rfl, rfl, rfl⟩
 
 theorem closeConn_acc {strict full : Bool} {s : State} {g : G} (h : Rel full s g) :
     Acc strict g (closeConn s) (fun s' g' => Rel true s' g' ∧ s'.conn = none ∧ s'.fsm = s.fsm) := by
@@ -267,7 +285,7 @@ theorem sendOn_acc {strict : Bool} {s : State} {g : G} (k : Kind) (h : Rel true 
       refine ⟨afterSend k c.id g, ?_, ⟨?_, ?_, hids, ?_, ?_, ?_⟩, rfl, rfl, rfl, rfl, by simp [hc, markSent_id], by simp⟩
       · simp [chkAll, chk_send h.fsm.symm hlive hd]
       · rw [afterSend_fsm]; exact h.fsm
-      · rw [afterSend_up]; exact h.up
+      · exact ⟨fun hdd => by rw [afterSend_up]; exact h.up.1 hdd, h.up.2⟩
       · intro k' hk'; simp at hk'; subst hk'; rw [markSent_id]; exact hcid
       · intro hk k' hk'; simp at hk'; subst hk'; rw [markSent_id, afterSend_plain hk]; exact hlive
       · intro i h0 hi
@@ -282,8 +300,7 @@ theorem sendOn_acc {strict : Bool} {s : State} {g : G} (k : Kind) (h : Rel true 
         rfl
       · show (afterSend k c.id g).fsm = s.fsm
         rw [afterSend_fsm]; exact h.fsm
-      · show (afterSend k c.id g).up = s.isUp
-        rw [afterSend_up]; exact h.up
+      · exact ⟨fun hdd => by show (afterSend k c.id g).up = s.isUp; rw [afterSend_up]; exact h.up.1 hdd, h.up.2⟩
       · intro i h0 hi
         show _ ∨ i ∈ c.id :: (afterSend k c.id g).closed
         rw [afterSend_closed]
@@ -343,9 +360,18 @@ theorem enterMain_acc {strict : Bool} {s : State} {g : G} (c : Nat) (h : Rel tru
   unfold enterMain
   split
   · exact onNotify_acc 6 3 h
-  · refine ⟨{ g with up := true }, ?_, h.fsm, rfl, h.ids, h.cid, h.live, h.accounted⟩
-    have : g.up = false := by rw [h.up, hu]
-    simp [chkAll, chk, this]
+  split
+  · exact onNotify_acc 6 0 h
+  · rename_i hnd
+    cases hch : s.cfg.changes
+    · refine ⟨g, by simp [chkAll], h.fsm, ⟨?_, by simp⟩, h.ids, h.cid, h.live, h.accounted⟩
+      intro hd
+      have := h.up.1 hd
+      rw [this, hu]
+    · have hdd : s.dead = false := by simpa [hch] using hnd
+      refine ⟨{ g with up := true }, ?_, h.fsm, ⟨fun _ => rfl, fun _ => hch⟩, h.ids, h.cid, h.live, h.accounted⟩
+      have : g.up = false := by rw [h.up.1 hdd, hu]
+      simp [chkAll, chk, this]
 
 theorem sendKa_acc {strict : Bool} {s : State} {g : G} (c : Nat) (h : Rel true s g) :
     Acc strict g (sendKa c s) (fun s' g' => Rel true s' g') := by
@@ -370,13 +396,14 @@ theorem andSend_acc {strict : Bool} {g : G} {w : W} {f : State → W} {P : State
 
 theorem sendIf_acc {strict : Bool} {s : State} {g : G} (c : State → Bool) (k : Kind) (upd : State → State)
     (hk : notNotif k = true) (h : Rel true s g)
-    (hupd : ∀ t, (upd t).fsm = t.fsm ∧ (upd t).isUp = t.isUp ∧ (upd t).nextId = t.nextId ∧ (upd t).conn = t.conn)
+    (hupd : ∀ t, (upd t).fsm = t.fsm ∧ (upd t).isUp = t.isUp ∧ (upd t).nextId = t.nextId ∧ (upd t).conn = t.conn ∧
+      (upd t).dead = t.dead ∧ (upd t).cfg = t.cfg)
     (hd : strict = true → isData k = true → s.fsm = .established) :
     Acc strict g (sendIf c k upd s).1 (fun s' g' => Rel true s' g' ∧ s'.fsm = s.fsm) := by
   unfold sendIf
   split
-  · obtain ⟨u1, u2, u3, u4⟩ := hupd s
-    refine Acc.mono (sendOn_acc k (h.frame u1 u2 u3 (by rw [u4])) (by rw [u1]; exact hd)) ?_
+  · obtain ⟨u1, u2, u3, u4, u5, u6⟩ := hupd s
+    refine Acc.mono (sendOn_acc k (h.frame u1 u2 u3 (by rw [u4]) u5 u6) (by rw [u1]; exact hd)) ?_
     intro s' g' ⟨r, f, _⟩
     exact ⟨r.full_of_plain hk, by rw [f, u1]⟩
   · exact Acc.pure ⟨h, rfl⟩
@@ -387,14 +414,14 @@ theorem mainSends_acc {strict : Bool} {s : State} {g : G} (h : Rel true s g)
   unfold mainSends
   have a1 : Acc strict g (sendIf (fun s => decide (s.refreshQ > 0)) .refresh (fun s => { s with refreshQ := s.refreshQ - 1 }) s).1
       (fun s' g' => Rel true s' g' ∧ s'.fsm = s.fsm) :=
-    sendIf_acc _ .refresh _ rfl h (fun t => ⟨rfl, rfl, rfl, rfl⟩) (fun hs _ => hd hs)
+    sendIf_acc _ .refresh _ rfl h (fun t => ⟨rfl, rfl, rfl, rfl, rfl, rfl⟩) (fun hs _ => hd hs)
   have a2 := andSend_acc (f := sendIf (fun s => s.routesPending) .update (fun s => { s with routesPending := false })) a1 (by
     intro g1 ⟨r1, f1⟩
-    refine Acc.mono (sendIf_acc _ .update _ rfl r1 (fun t => ⟨rfl, rfl, rfl, rfl⟩) (fun hs _ => by rw [f1]; exact hd hs)) ?_
+    refine Acc.mono (sendIf_acc _ .update _ rfl r1 (fun t => ⟨rfl, rfl, rfl, rfl, rfl, rfl⟩) (fun hs _ => by rw [f1]; exact hd hs)) ?_
     intro s' g' ⟨r, f⟩; exact ⟨r, by rw [f, f1]⟩)
   exact andSend_acc a2 (by
     intro g1 ⟨r1, f1⟩
-    refine Acc.mono (sendIf_acc _ .eor _ rfl r1 (fun t => ⟨rfl, rfl, rfl, rfl⟩) (fun hs _ => by rw [f1]; exact hd hs)) ?_
+    refine Acc.mono (sendIf_acc _ .eor _ rfl r1 (fun t => ⟨rfl, rfl, rfl, rfl, rfl, rfl⟩) (fun hs _ => by rw [f1]; exact hd hs)) ?_
     intro s' g' ⟨r, f⟩; exact ⟨r, by rw [f, f1]⟩)
 
 theorem mainExit_acc {strict : Bool} {s : State} {g : G} (h : Rel true s g) :
@@ -449,15 +476,15 @@ theorem markConn_fsm (f : Conn → Conn) (s : State) : (markConn f s).fsm = s.fs
 theorem markConn_isUp (f : Conn → Conn) (s : State) : (markConn f s).isUp = s.isUp := by
   unfold markConn; cases s.conn <;> rfl
 
-theorem deliver_acc {strict : Bool} {s : State} {g : G} (m : Msg) (h : Rel true s g) (hinv : Inv s)
+theorem deliverAlive_acc {strict : Bool} {s : State} {g : G} (m : Msg) (h : Rel true s g) (hinv : Inv s)
     (c : Nat) (k : Conn) (haw : awaited s = some c) (hc : s.conn = some k) (hk : k.id = c) :
-    Acc strict g (deliver m s) (fun s' g' => Rel true s' g') := by
+    Acc strict g (deliverAlive m s) (fun s' g' => Rel true s' g') := by
   cases hp : s.pc with
   | awaitOpen c' =>
     have hcc : c' = c := by simpa [awaited, hp] using haw
     subst hcc
     have hf := (hinv.awaitOpen _ k hp hc hk).1
-    unfold deliver; rw [hp]; simp only []
+    unfold deliverAlive; rw [hp]; simp only []
     cases m with
     | openOk low =>
       simp only []
@@ -476,7 +503,7 @@ theorem deliver_acc {strict : Bool} {s : State} {g : G} (m : Msg) (h : Rel true 
     subst hcc
     have hf := (hinv.awaitKa _ k hp hc hk).1
     have hu : s.isUp = false := hinv.isUp_false (by rw [hp]; simp) (by rw [hf]; simp)
-    unfold deliver; rw [hp]; simp only []
+    unfold deliverAlive; rw [hp]; simp only []
     cases m with
     | keepalive =>
       simp only []
@@ -494,12 +521,37 @@ theorem deliver_acc {strict : Bool} {s : State} {g : G} (m : Msg) (h : Rel true 
     have hcc : c' = c := by simpa [awaited, hp] using haw
     subst hcc
     have hf := (hinv.main _ k hp hc hk).1
-    unfold deliver; rw [hp]
+    unfold deliverAlive; rw [hp]
     exact mainIter_acc _ h (fun _ => hf)
   | backoff => simp [awaited, hp] at haw
   | done => simp [awaited, hp] at haw
   | passiveWait => simp [awaited, hp] at haw
   | connecting => simp [awaited, hp] at haw
+
+/-- `ProcessError`: a NOTIFICATION that was read marks its connection; nothing is written. -/
+theorem onProcessError_acc {strict : Bool} {s : State} {g : G} (m : Msg) (h : Rel true s g) :
+    Acc strict g (onProcessError m s) (fun s' g' => Rel true s' g') := by
+  unfold onProcessError
+  refine Acc.seq (P := fun s' g' => Rel false s' g') ?_ (fun g1 p1 => onOther_acc p1)
+  cases hc : s.conn with
+  | none => cases m <;> exact ⟨g, rfl, h.weaken⟩
+  | some k =>
+    cases m with
+    | notification =>
+      refine ⟨{ g with dead := k.id :: g.dead }, by simp [chkAll, chk], h.fsm, h.up, ?_, h.cid, by simp, h.accounted⟩
+      intro i hi
+      rcases List.mem_cons.1 hi with rfl | hi
+      · exact h.cid k hc
+      · exact h.ids i hi
+    | _ => exact ⟨g, rfl, h.weaken⟩
+
+theorem deliver_acc {strict : Bool} {s : State} {g : G} (m : Msg) (h : Rel true s g) (hinv : Inv s)
+    (c : Nat) (k : Conn) (haw : awaited s = some c) (hc : s.conn = some k) (hk : k.id = c) :
+    Acc strict g (deliver m s) (fun s' g' => Rel true s' g') := by
+  unfold deliver
+  split
+  · exact onProcessError_acc m h
+  · exact deliverAlive_acc m h hinv c k haw hc hk
 
 theorem readErr_acc {strict : Bool} {s : State} {g : G} (h : Rel true s g) :
     Acc strict g (readErr s) (fun s' g' => Rel true s' g') := by
@@ -570,12 +622,72 @@ theorem adopt_acc {strict : Bool} {s : State} {g : G} (h : Rel true s g) :
     a1 (fun g1 p1 => Acc.pure (p1.1.adopt p1.2))
   exact Acc.seq a2 (fun g2 r2 => passiveCont_acc r2)
 
-theorem handleConnection_acc {strict : Bool} {s : State} {g : G} (h : Rel true s g) :
-    Acc strict g (handleConnection s) (fun s' g' => Rel true s' g') := by
-  unfold handleConnection
-  split
-  · refine ⟨{ g with closed := s.nextId :: g.closed }, by simp [chkAll, chk], h.fsm, h.up,
-      fun i hi => Nat.lt_succ_of_lt (h.ids i hi), ?_, h.live, ?_⟩
+/-- two checker states which differ by one more closed id in the second. -/
+structure GPlus (c : Nat) (ga gb : G) : Prop where
+  fsm : ga.fsm = gb.fsm
+  up : ga.up = gb.up
+  dead : ga.dead = gb.dead
+  closed : ∀ i, i ∈ gb.closed ↔ i = c ∨ i ∈ ga.closed
+
+theorem chk_gplus {strict : Bool} {c : Nat} {ga gb gb' : G} {o : Out} (h : GPlus c ga gb)
+    (e : chk strict gb o = some gb') : ∃ ga', chk strict ga o = some ga' ∧ GPlus c ga' gb' := by
+  obtain ⟨h1, h2, h3, h4⟩ := h
+  cases o with
+  | fsm a b =>
+    simp only [chk] at e
+    split at e
+    · rename_i hc; simp at e; subst e
+      refine ⟨{ ga with fsm := b }, ?_, ⟨rfl, h2, h3, h4⟩⟩
+      simp only [chk]; rw [if_pos (by rw [h1]; exact hc)]
+    · simp at e
+  | send k kind st =>
+    simp only [chk] at e
+    split at e
+    · rename_i hc; simp at e; subst e
+      refine ⟨(match kind with | .notification _ _ => { ga with dead := k :: ga.dead } | _ => ga), ?_, ?_⟩
+      · simp only [chk]; rw [if_pos (by rw [h1, h3]; exact hc)]; cases kind <;> rfl
+      · cases kind <;> exact ⟨h1, h2, by simp [h3], h4⟩
+    · simp at e
+  | up =>
+    simp only [chk] at e
+    split at e
+    · simp at e
+    · rename_i hc; simp at e; subst e
+      refine ⟨{ ga with up := true }, ?_, ⟨h1, rfl, h3, h4⟩⟩
+      simp only [chk]; rw [if_neg (by rw [h2]; exact hc)]
+  | down => simp [chk] at e; subst e; exact ⟨{ ga with up := false }, by simp [chk], ⟨h1, rfl, h3, h4⟩⟩
+  | gotNotification k =>
+    simp [chk] at e; subst e
+    exact ⟨{ ga with dead := k :: ga.dead }, by simp [chk], ⟨h1, h2, by simp [h3], h4⟩⟩
+  | close k =>
+    simp [chk] at e; subst e
+    refine ⟨{ ga with closed := k :: ga.closed }, by simp [chk], ⟨h1, h2, h3, ?_⟩⟩
+    intro i; simp only [List.mem_cons, h4 i]
+    constructor
+    · rintro (h | h | h) <;> simp [h]
+    · rintro (h | h | h) <;> simp [h]
+  | reject k => simp [chk] at e; subst e; exact ⟨ga, by simp [chk], ⟨h1, h2, h3, h4⟩⟩
+
+theorem chkAll_gplus {strict : Bool} {c : Nat} : ∀ {os : List Out} {ga gb gb' : G}, GPlus c ga gb →
+    chkAll strict gb os = some gb' → ∃ ga', chkAll strict ga os = some ga' ∧ GPlus c ga' gb'
+  | [], ga, gb, gb', h, e => by simp [chkAll] at e; subst e; exact ⟨ga, rfl, h⟩
+  | o :: os, ga, gb, gb', h, e => by
+    simp only [chkAll] at e ⊢
+    cases h1 : chk strict gb o with
+    | none => simp [h1] at e
+    | some gb1 =>
+      obtain ⟨ga1, e1, p1⟩ := chk_gplus h h1
+      obtain ⟨ga', e2, p2⟩ := chkAll_gplus p1 (by simpa [h1] using e)
+      exact ⟨ga', by simpa [e1] using e2, p2⟩
+
+/-- a connection that was made but never became `peer.proto`: it has an id, and its `close` comes
+    after whatever `f` does meanwhile. -/
+theorem dropped_acc {strict : Bool} {s : State} {g : G} {f : State → R} (h : Rel true s g)
+    (hf : ∀ g1, Rel true { s with nextId := s.nextId + 1 } g1 →
+      Acc strict g1 (f { s with nextId := s.nextId + 1 }) (fun s' g' => Rel true s' g')) :
+    Acc strict g (f { s with nextId := s.nextId + 1 } ⊳ fun t => (t, [.close s.nextId])) (fun s' g' => Rel true s' g') := by
+  have r1 : Rel true { s with nextId := s.nextId + 1 } { g with closed := s.nextId :: g.closed } := by
+    refine ⟨h.fsm, h.up, fun i hi => Nat.lt_succ_of_lt (h.ids i hi), ?_, h.live, ?_⟩
     · intro k hk; exact Nat.lt_succ_of_lt (h.cid k hk)
     · intro i h0 hi
       by_cases hlt : i < s.nextId
@@ -583,6 +695,52 @@ theorem handleConnection_acc {strict : Bool} {s : State} {g : G} (h : Rel true s
         · exact Or.inl hcur
         · exact Or.inr (by simp [hcl])
       · exact Or.inr (by simp at hi ⊢; omega)
+  obtain ⟨gb', eb, rb⟩ := hf _ r1
+  have hplus : GPlus s.nextId g { g with closed := s.nextId :: g.closed } :=
+    ⟨rfl, rfl, rfl, fun i => List.mem_cons⟩
+  obtain ⟨ga', ea, pa⟩ := chkAll_gplus hplus eb
+  refine ⟨{ ga' with closed := s.nextId :: ga'.closed }, ?_, ?_⟩
+  · simp [andThen_snd, chkAll_append, ea, chkAll, chk]
+  · simp only [andThen_fst]
+    refine ⟨by rw [← rb.fsm]; exact pa.fsm, ⟨fun hd => by rw [← rb.up.1 hd]; exact pa.up, rb.up.2⟩, ?_, rb.cid, ?_, ?_⟩
+    · intro i hi; exact rb.ids i (by rw [← pa.dead]; exact hi)
+    · intro hfull k hk; have := rb.live hfull k hk; rw [← pa.dead] at this; exact this
+    · intro i h0 hi
+      rcases rb.accounted i h0 hi with hcur | hcl
+      · exact Or.inl hcur
+      · exact Or.inr (by simpa [List.mem_cons] using (pa.closed i).1 hcl)
+
+/-- a connection that is refused (or dropped) right away: it gets an id, `reject` and `close`. -/
+theorem rejected_acc {strict : Bool} {s : State} {g : G} (h : Rel true s g) :
+    Acc strict g (({ s with nextId := s.nextId + 1 }, [.reject s.nextId, .close s.nextId]) : R)
+      (fun s' g' => Rel true s' g') := by
+  refine ⟨{ g with closed := s.nextId :: g.closed }, by simp [chkAll, chk], h.fsm, h.up,
+    fun i hi => Nat.lt_succ_of_lt (h.ids i hi), ?_, h.live, ?_⟩
+  · intro k hk; exact Nat.lt_succ_of_lt (h.cid k hk)
+  · intro i h0 hi
+    by_cases hlt : i < s.nextId
+    · rcases h.accounted i h0 hlt with hcur | hcl
+      · exact Or.inl hcur
+      · exact Or.inr (by simp [hcl])
+    · exact Or.inr (by simp at hi ⊢; omega)
+
+theorem handleConnection_acc {strict : Bool} {s : State} {g : G} (h : Rel true s g) :
+    Acc strict g (handleConnection s) (fun s' g' => Rel true s' g') := by
+  unfold handleConnection
+  split
+  · exact rejected_acc h
+  split
+  · -- `processes.connected` raises: the old transport is closed, the new connection dropped
+    have a1 : Acc strict g (if s.conn.isSome then closeP s else (s, []))
+        (fun s' g' => Rel true s' g') := by
+      cases hc : s.conn with
+      | none => simpa using Acc.pure (strict := strict) h
+      | some k =>
+        simp only [Option.isSome_some, if_true]
+        exact Acc.mono (closeP_acc h) (fun s' g' p => p.1)
+    refine Acc.seq a1 ?_
+    intro g1 r1
+    exact rejected_acc r1
   · exact adopt_acc h
 
 theorem drainMain_acc {strict : Bool} : ∀ (n : Nat) (s : State) (g : G), Rel true s g → Inv s →
@@ -630,6 +788,9 @@ theorem react_acc {strict : Bool} {s : State} {g : G} (e : Event) (h : Rel true 
     split
     · rename_i hp
       have hf := hinv.connectingIdle hp
+      split
+      · -- `processes.connected` raises: `_reset`, the connection just made is dropped
+        exact dropped_acc h (fun g1 r1 => onOther_acc r1)
       refine Acc.seq (P := fun s' g' => Rel true s' g' ∧ s'.fsm = .idle) ?_ (fun g1 p1 => afterConnect_acc p1.1 p1.2)
       cases hc : s.conn with
       | none =>
@@ -708,6 +869,9 @@ theorem react_acc {strict : Bool} {s : State} {g : G} (e : Event) (h : Rel true 
         split
         · exact onNotify_acc _ _ r1
         · exact Acc.pure r1
+    · split
+      · exact Acc.pure h
+      · exact onNotify_acc _ _ h
     · exact Acc.pure h
   | tick =>
     simp only [react]
@@ -732,6 +896,7 @@ theorem react_acc {strict : Bool} {s : State} {g : G} (e : Event) (h : Rel true 
     · exact Acc.pure h
   | queueRefresh => exact Acc.pure (h.frame rfl rfl rfl rfl)
   | announce => exact Acc.pure (h.frame rfl rfl rfl rfl)
+  | apiDies => exact Acc.pure ⟨h.fsm, ⟨by simp, h.up.2⟩, h.ids, h.cid, h.live, h.accounted⟩
 
 theorem step_acc {strict : Bool} {s : State} {g : G} (e : Event) (h : Rel true s g) (hinv : Inv s) :
     Acc strict g (step s e) (fun s' g' => Rel true s' g') := by
@@ -752,6 +917,6 @@ theorem run_acc {strict : Bool} : ∀ (evs : List Event) (s : State) (g : G), Re
 def g0 : G := { fsm := .idle, up := false, dead := [] }
 
 theorem rel_init (cfg : Cfg) (rib : Bool) : Rel true (init cfg rib) g0 :=
-  ⟨rfl, rfl, by simp [g0], by simp [init], by simp [init], by intro i h0 hi; simp [init] at hi; omega⟩
+  ⟨rfl, ⟨fun _ => rfl, by simp [init]⟩, by simp [g0], by simp [init], by simp [init], by intro i h0 hi; simp [init] at hi; omega⟩
 
 end Exa.Session
